@@ -168,11 +168,22 @@ def compare_glyph(ref_exact, out_cycles, tol, optimize, npoints):
     dev = tol + (npoints + 1) * unit + 1e-6
     ref = got = None
     drift = (npoints + 1) * unit
-    for merge in ([False, True] if optimize >= 1 else [False]):
+    def model(v):
+        # what the charstring pen stores: the nearest integer when it is within tol, else v
+        r = R.otround(v)
+        return r if abs(v - r) <= tol else v
+    ref_model = [((model(s[0]), model(s[1])),
+                  [(sg[0],) + tuple((model(p[0]), model(p[1])) for p in sg[1:]) for sg in segs])
+                 for s, segs in ref_exact]
+    # the specialiser merges runs of horizontal / vertical lines: such runs exist only after the
+    # tolerance rounding has aligned the points, so the merged comparison is also tried on the
+    # modelled stored values (every stored point must still lie within dev of its source point)
+    variants = [(False, ref_exact)] + ([(True, ref_exact), (True, ref_model)] if optimize >= 1 else [])
+    for merge, ref_src in variants:
         # the re-encoded contour may fail to return exactly to its start (accumulated format
         # error): a closing sliver shorter than the drift is the implicit closing line
         for close_slack in (drift, 2 * drift, drift / 2):
-            ref = _prep_tol(ref_exact, merge, 4 * unit, close_slack)
+            ref = _prep_tol(ref_src, merge, 4 * unit, close_slack)
             got = _prep_tol(out_cycles, merge, 4 * unit, close_slack)
             if len(ref) != len(got):
                 continue
@@ -219,37 +230,58 @@ def _prep_tol(cycles, merge, tiny, close_slack=0.0):
 
 
 def _tolerant_int_match(ref_exact, out_cycles, optimize):
+    """Accept either neighbour for every coordinate inside the tie band.  The alternatives are
+    enumerated per contour (ties of different contours are independent: <= 2^10 per contour),
+    then the contour sequences are aligned in order; a contour whose rounding draws nothing may be
+    absent."""
     import itertools
-    # enumerate the alternative roundings of tie-band coordinates (bounded)
-    slots = []
-    for ci, (start, segs) in enumerate(ref_exact):
+    per_contour = []
+    for start, segs in ref_exact:
         pts = [start] + [q for s in segs for q in s[1:]]
+        slots = []
         for pi, p in enumerate(pts):
             for ax in (0, 1):
                 ch = R.round_choices(p[ax])
                 if len(ch) > 1:
-                    slots.append((ci, pi, ax, ch))
-    if len(slots) > 8:
-        return False
-    for combo in itertools.product(*[s[3] for s in slots]):
-        override = {(s[0], s[1], s[2]): v for s, v in zip(slots, combo)}
-        rounded = []
-        for ci, (start, segs) in enumerate(ref_exact):
+                    slots.append((pi, ax, ch))
+        if len(slots) > 10:
+            return False
+        alts = []
+        for combo in itertools.product(*[s[2] for s in slots]):
+            override = {(s[0], s[1]): v for s, v in zip(slots, combo)}
             pi = [0]
 
-            def rp(p, ci=ci, pi=pi):
-                x = override.get((ci, pi[0], 0), R.otround(p[0]))
-                y = override.get((ci, pi[0], 1), R.otround(p[1]))
+            def rp(p, pi=pi, override=override):
+                x = override.get((pi[0], 0), R.otround(p[0]))
+                y = override.get((pi[0], 1), R.otround(p[1]))
                 pi[0] += 1
                 return (x, y)
             rs = rp(start)
-            out = []
-            for s in segs:
-                out.append((s[0],) + tuple(rp(p) for p in s[1:]))
-            rounded.append((rs, out))
-        for merge in ([False, True] if optimize >= 1 else [False]):
-            if R.canon_drawing(rounded, merge) == R.canon_drawing(out_cycles, merge):
-                return True
+            alts.append((rs, [(s[0],) + tuple(rp(p) for p in s[1:]) for s in segs]))
+        per_contour.append(alts)
+    for merge in ([False, True] if optimize >= 1 else [False]):
+        got = R.canon_drawing(out_cycles, merge)
+        forms = []
+        for alts in per_contour:
+            f = set()
+            for alt in alts:
+                cd = R.canon_drawing([alt], merge)
+                f.add(cd[0] if cd else None)
+            forms.append(f)
+        # ordered alignment: reach[j] = the first i contours can produce the first j cycles
+        reach = {0}
+        for f in forms:
+            nxt = set()
+            for j in reach:
+                if None in f:
+                    nxt.add(j)
+                if j < len(got) and got[j] in f:
+                    nxt.add(j + 1)
+            reach = nxt
+            if not reach:
+                break
+        if len(got) in reach:
+            return True
     return False
 
 
@@ -392,6 +424,8 @@ def run(case):
 def classify(v, case):
     if v["mech"] == "unexpected_exception" and "tx:" in v["detail"].get("trace", ""):
         if (case["cffVersion"] == 2 and case["optimizeCFF"] >= 2
-                and not any(g["contours"] for g in case["ufo"]["glyphs"])):
+                and not any(len(c) > 1 for g in case["ufo"]["glyphs"] for c in g["contours"])):
+            # no glyph of the font has a path: no contours at all, or only single-point
+            # contours, which tx discards ("moveto preceeds closepath")
             return "cffsubr_cff2_all_glyphs_empty"
     return None
